@@ -157,6 +157,7 @@ func checkIndexUpper(c *Check, p *Prog, rule, name, what string) {
 		c.Undecided(rule, name, where, "%s", strings.Join(sum.Undecided, "; "))
 		return
 	}
+	normalizeSummary(S, sum)
 	lens := map[*Symbol]*Term{}
 	sum.Top.Events(func(e *Event, _ []*LoopS) {
 		if e.Kind == "alloc" && e.Res != nil && e.Len != nil {
